@@ -113,6 +113,8 @@ func main() {
 		runC19()
 	case "c11":
 		runC11()
+	case "c01":
+		runC01()
 	default:
 		fmt.Fprintln(os.Stderr, "unknown property", cmd)
 		os.Exit(2)
